@@ -103,6 +103,24 @@ impl Property for C04 {
         } else {
             None
         };
+        // One of the other cases in four ends with a row of literals whose first probe is `(0 & (Q))`, Q being an output:
+        // both operands of `&` are evaluated whatever the left one is, so if the latest value read for Q is Z or X the row
+        // is an error item like any row that reads Q (tag 0, last statement).
+        let planted_abs: Option<String> = if planted_q.is_none() && !readable.is_empty() && dch.chance(1, 4) {
+            let q = readable[dch.upto(readable.len())].clone();
+            let probe = Expr::Group(Box::new(Expr::bin(BinOp::And, Expr::lit(0), Expr::Group(Box::new(Expr::var(&q))))));
+            let es: Vec<Entry> = built
+                .cols
+                .iter()
+                .map(|c| if c.name == "PR0" { Entry::Paren(probe.clone()) } else if c.role == ColRole::ExpectedOnly { Entry::X(true) } else { Entry::Num(0, Radix::Dec) })
+                .collect();
+            let id = built.prog.row_count();
+            built.prog.stmts.push(Stmt::Row(id, es));
+            built.analysis = analyse(&built.prog);
+            if built.analysis.reads.contains(&q) { Some(q) } else { None }
+        } else {
+            None
+        };
         let text = built_text(&built);
         let must = built.must_supply();
         let mut spec = gen_spec(
@@ -291,6 +309,22 @@ impl Property for C04 {
                             out.fail(
                                 "c04:variable-does-not-take-precedence",
                                 format!("the program ends with `loop(pl, 1) let pw = 1; while(pw) let {q} = 77; let pw = 0; end while / a row whose first probe is ({q}) / end loop`: `while` opens no scope, the variable {q} is in scope behind `end while` and takes precedence over the output of that name; the probe shows {shown:?}"),
+                            );
+                            return out;
+                        }
+                        break;
+                    }
+                    if let (0, Some(q), false) = (tag, &planted_abs, is_failed) {
+                        // (a row came back: the latest value read for q must have been a number - unless q is a variable for
+                        // the crate at this point)
+                        let is_var = matches!(real.vars.get(i), Some(Some(vs)) if vs.contains_key(q));
+                        let lv = sig_index(q).and_then(|si| latest.iter().find(|(s2, _)| *s2 == si).map(|(_, v)| *v));
+                        out.class("absorbed-read-probed");
+                        if let (false, Some(zx @ (OutVal::Z | OutVal::X))) = (is_var, lv) {
+                            out.class("absorbed-read-of-zx");
+                            out.fail(
+                                "c04:zx-read-yields-a-row",
+                                format!("the program ends with a row whose first probe is `(0 & ({q}))`; the latest output-reading call (driver call #{latest_call}) returned {q} = {zx}: both operands of `&` are evaluated, the row reads {q} and must be an error item, got a row"),
                             );
                             return out;
                         }
